@@ -311,6 +311,20 @@ func stopEnv() {
 	}
 }
 
+// cleanupTemp removes what this process left in the temporary directory (certificates of the in-process servers, the scratch
+// directory of the cdrfile stream, the second key pair of the peer stream); called when a stream has been generated or run
+func cleanupTemp() {
+	stopEnv()
+	// the CDR files the product wrote for this process's subscribers (/tmp/<supi>.cdr)
+	cleanupCdrFiles()
+	if cdrTmp != "" {
+		os.RemoveAll(cdrTmp)
+	}
+	if secondPem != "" {
+		os.RemoveAll(filepath.Dir(secondPem))
+	}
+}
+
 // ---- a persistent Diameter client connection ----
 
 type diamPeer struct {
